@@ -60,3 +60,45 @@ Proof.
   rewrite (pt_free_e0_free e W m (DVal v) zero e0 false). destruct (sem m e (DVal v) zero false) as [lk dk] eqn:E.
   rewrite (IH zero (done ++ [dk]) (S i) (e0 || rerrored lk)). cbn [fst snd]. now rewrite <- app_assoc.
 Qed.
+
+(** ** ... and its PostTransforms: a catching node runs them exactly when no issue existed before the
+    node was reached — whether or not its Catch fired, whichever failure it swallowed — on the value
+    the node ends up with (the catch value when it fired); their errors are swallowed as well. *)
+Definition without_pts (p : prim) : prim :=
+  {| p_kind := p_kind p; p_coerce := p_coerce p; p_req := p_req p; p_def := p_def p; p_catch := p_catch p;
+     p_tests := p_tests p; p_pts := [] |}.
+
+Lemma sem_pts_loop_swallow_never_errors wrap ps : forall v, rerrored (fst (sem_pts_loop wrap true ps v)) = false.
+Proof.
+  induction ps as [|q ps IH]; intros v; cbn [sem_pts_loop]; [reflexivity|].
+  destruct (pt_fn q v) as [v1 [e|]].
+  - cbn [fst]. rewrite app_nil_r. apply rerrored_rcall.
+  - specialize (IH v1). destruct (sem_pts_loop wrap true ps v1) as [l d1]. cbn [fst] in *.
+    rewrite rerrored_app, rerrored_rcall, IH. reflexivity.
+Qed.
+
+Lemma sem_prim_is_body_then_pts m p dat d e0 :
+  sem_prim m p dat d e0 =
+  then_pts (fun q e => mk_unknown_issue q (dtype_of (p_kind p)) e) (match p_catch p with Some _ => true | None => false end)
+           (p_pts p) e0 (sem_prim m (without_pts p) dat d e0).
+Proof.
+  unfold sem_prim. cbn [without_pts p_kind p_coerce p_req p_def p_catch p_tests p_pts].
+  match goal with |- then_pts _ _ _ _ ?b = _ => destruct b as [l dv] end.
+  rewrite then_pts_nil, app_nil_r. reflexivity.
+Qed.
+
+Theorem catch_with_transforms m p dat d e0 c : p_catch p = Some c ->
+  let v := snd (sem_prim m (without_pts p) dat d e0) in
+  rerrored (fst (sem_prim m p dat d e0)) = false
+  /\ snd (sem_prim m p dat d e0) =
+     if e0 then v else snd (sem_pts_loop (fun q e => mk_unknown_issue q (dtype_of (p_kind p)) e) true (p_pts p) v).
+Proof.
+  intros Ec v. destruct (catch_own_node m (without_pts p) dat d e0 c Ec eq_refl) as [NoErr _].
+  rewrite sem_prim_is_body_then_pts, Ec. subst v.
+  destruct (sem_prim m (without_pts p) dat d e0) as [l dv] eqn:E. cbn [fst snd] in *.
+  unfold then_pts, sem_pts. rewrite NoErr, orb_false_r. destruct e0.
+  - cbn [fst snd]. rewrite app_nil_r. split; [exact NoErr | reflexivity].
+  - pose proof (sem_pts_loop_swallow_never_errors (fun q e => mk_unknown_issue q (dtype_of (p_kind p)) e) (p_pts p) dv) as S.
+    destruct (sem_pts_loop (fun q e => mk_unknown_issue q (dtype_of (p_kind p)) e) true (p_pts p) dv) as [l2 d2].
+    cbn [fst snd] in *. rewrite rerrored_app, NoErr, S. split; reflexivity.
+Qed.
